@@ -23,6 +23,13 @@ namespace Nexus.Client.R
 open Nexus.Gen Nexus.Client
 
 set_option hygiene false in
+/-- Case-split the three things the post-processing of a call may have changed (`SameMod`). -/
+macro "split_mod" : tactic => `(tactic| (
+  all_goals (try (rcases hout with hout | hout))
+  all_goals (try (rcases hrd with hrd | hrd))
+  all_goals (try (rcases hscm with hscm | hscm))))
+
+set_option hygiene false in
 /-- Closing tactic for the per-event goals of an invariant proof (`hh` is the hypothesis
     introduced from the invariant being re-established). -/
 macro "inv_close" : tactic => `(tactic| (
@@ -41,7 +48,7 @@ set_option hygiene false in
 macro "analyse_step" : tactic => `(tactic| (
   have hs := step_cases h
   clear h
-  obtain ⟨hc, h | h⟩ := hs
+  obtain ⟨hc, ⟨hscl, h⟩ | h⟩ := hs
   rotate_left
   unfold stepCore at h
   cases ev <;> simp only at h
@@ -58,7 +65,7 @@ macro "analyse_step" : tactic => `(tactic| (
     rcases hx with ⟨hxn, rfl⟩ | ⟨m, hxm, rfl⟩
     rotate_left
     rcases dispatch_cases cfg ((st.pop rest).emit (.recv m)) m with
-      ⟨o, hnote, ho⟩ | ⟨g, id, hsig, hg, ho⟩ | ⟨site, ho⟩ | ⟨sub, pub, d, a, k, a', k', hm, ho⟩ | ho | ho
+      ⟨o, hnote, ho⟩ | ⟨g, id, hsig, hg, ho⟩ | ⟨site, sub, pub, d, a, k, hm, hpanic, ho⟩ | ⟨sub, pub, d, a, k, a', k', hm, ho⟩ | ho | ho
     all_goals (try rw [ho])
     all_goals (try (cases o <;> simp [Out.isNote] at hnote))
   case' finish g =>
@@ -71,9 +78,9 @@ macro "analyse_step" : tactic => `(tactic| (
     rotate_left
     simp at h
     subst h
-    rcases complete_cases cfg (st.forget cfg (st.ws g).req) g r with ⟨site, ho⟩ | ⟨st1, r', sm, hpp, ho⟩
+    rcases complete_cases cfg (st.forget cfg (st.ws g).req) g r with ⟨site, hpanic, ho⟩ | ⟨st1, r', sm, hpp, ho⟩
     rotate_left
-    obtain ⟨hnow, hidg, hdrawn, hws, haw, hinbox, harr, hrcl, hrun, hrd, hdone, hclose, hcr, hout⟩ := sm
+    obtain ⟨hnow, hidg, hdrawn, hws, haw, hinbox, harr, hrcl, hrun, hrd, hdone, hclose, hcr, hscm, hout⟩ := sm
     all_goals (try rw [ho])
   case' callReturn g =>
     split at h
@@ -84,9 +91,9 @@ macro "analyse_step" : tactic => `(tactic| (
     · simp at h
     simp at h
     subst h
-    rcases complete_cases cfg st g r with ⟨site, ho⟩ | ⟨st1, r', sm, hpp, ho⟩
+    rcases complete_cases cfg st g r with ⟨site, hpanic, ho⟩ | ⟨st1, r', sm, hpp, ho⟩
     rotate_left
-    obtain ⟨hnow, hidg, hdrawn, hws, haw, hinbox, harr, hrcl, hrun, hrd, hdone, hclose, hcr, hout⟩ := sm
+    obtain ⟨hnow, hidg, hdrawn, hws, haw, hinbox, harr, hrcl, hrun, hrd, hdone, hclose, hcr, hscm, hout⟩ := sm
     all_goals (try rw [ho])
   all_goals (
     repeat' (split at h)
@@ -139,8 +146,10 @@ theorem postProcess_cancelOutcome {cfg : Cfg} {st st1 : State} {w : Waiter} {r r
 set_option hygiene false in
 /-- Closing tactic for goals about one waiter `b` after a step. -/
 macro "wf_close" : tactic => `(tactic| (
+  split_mod
   all_goals (try (simp [returnNow, startRequest, fireAndForget, State.nextId, Waiter.wf, Ret.cancelOutcome] at *))
-  all_goals (try (simp only [hws, haw, hrun, hdone, hclose, hrd] at *))
+  all_goals (try (simp only [hws, haw, hrun, hdone, hclose] at *))
+  all_goals (try (simp only [hrd] at *))
   all_goals (try (grind [Waiter.wf, Ret.cancelOutcome]))
   all_goals (try (split <;> simp_all [Waiter.wf, Ret.cancelOutcome]))
   all_goals (try simp_all [Waiter.wf, Ret.cancelOutcome])
